@@ -16,3 +16,4 @@ import SpoxModel.Props.C14
 #print axioms C14.reachable_bodies_are_used
 #print axioms C14.imports_agree_with_model_program
 #print axioms C14.used_has_body
+#print axioms C14.rejected_iff_inconsistent
